@@ -36,6 +36,7 @@ func init() {
 var c16Nums = []string{"0", "-0", "1", "-1", "2", "0.4", "0.5", "0.6", "1.5", "2.5", "-0.5", "-1.5", "-2.5", "99.4", "99.5", "100", "999.995", "1.005", "0.125", "12345", "1234567", "0.000123",
 	"2147483647", "2147483646.5", "2147483647.4", "2147483647.5", "2147483648", "-2147483648", "-2147483648.4", "-2147483648.5", "-2147483649",
 	"9007199254740992", "9007199254740993", "9223372036854775807", "9223372036854775808", "-9223372036854775808", "-9223372036854775809", "9223372036854774784", "9223372036854775296", "-9223372036854774784",
+	"4503599627370497", "4503599627370497.0", "9007199254740991", "9007199254740991.0", "6755399441055745", "0.49999999999999994", "-0.49999999999999994", "1.4999999999999998", "2.5000000000000004",
 	"1e18", "1e19", "1e308", "-1e308", "5e-324", "1e-7", "123456789012345678901234567890", "1e400", "-1e400", "1e-400"}
 
 var c16Other = []string{`null`, `true`, `false`, `""`, `"abc"`, `"true"`, `"false"`, `"t"`, `"F"`, `"yes"`, `"NO"`, `"on"`, `"off"`, `"1"`, `"0"`, `" 1"`, `"1 "`, `"+1"`, `"1e2"`, `"0x10"`, `"NaN"`, `"Infinity"`, `"-inf"`, `"1_0"`, `"tr"`, `"o"`, `"tree"`, `"truE"`, `"trux"`, `"falsy"`, `"fall"`, `"yess"`, `"nope"`, `"nn"`, `"onn"`, `"offf"`, `"11"`, `"00"`, `"01"`, `"2"`, `"-1"`, `"truee"`, `"ye s"`, `"ok"`,
